@@ -57,6 +57,16 @@ fn read_options_survive_the_query_string() {
         n += 1;
     } } } } }
     assert!(n >= 250, "{}", n);
+    // spellings of the boolean / follow options a client may send
+    for (q, tail) in [("tail", true), ("tail=", true), ("tail=true", true), ("tail=yes", true), ("tail=1", true), ("tail=false", false), ("tail=no", false), ("tail=0", false), ("follow&tail", true)] {
+        let o = ReadOptions::from_query(Some(q)).unwrap_or_else(|e| panic!("C11/C12: {:?} rejected: {}", q, e));
+        assert_eq!(o.tail, tail, "C11/C12: query {:?} must parse as tail={}", q, tail);
+    }
+    for (q, f) in [("follow", FollowOption::On), ("follow=", FollowOption::On), ("follow=true", FollowOption::On), ("follow=yes", FollowOption::On), ("follow=false", FollowOption::Off),
+                   ("follow=no", FollowOption::Off), ("follow=250", FollowOption::WithHeartbeat(Duration::from_millis(250)))] {
+        let o = ReadOptions::from_query(Some(q)).unwrap_or_else(|e| panic!("C12: {:?} rejected: {}", q, e));
+        assert_eq!(o.follow, f, "C12: query {:?}", q);
+    }
     for q in ["follow=maybe", "limit=-1", "limit=x", "last-id=zzz", "context-id=123", "follow=1.5"] {
         assert!(ReadOptions::from_query(Some(q)).is_err(), "C12: malformed options {:?} accepted", q);
     }
